@@ -50,6 +50,7 @@ def run(ctx):
     ctx.do(rule_same_decider)
     ctx.do(rule_sets_and_numbers)
     ctx.do(rule_copy_complete)
+    ctx.do(rule_changed_flag)
     ctx.do(rule_distinct_bindings)
     from .pitfalls import rule_groupby_sorted, rule_single_use_iterators
     ctx.do(rule_groupby_sorted, "C09.iterator-pitfalls", ("stix2.equivalence.pattern",))
@@ -216,6 +217,23 @@ def rule_producers_handlers(ctx):
     run.floor(R, 60)
 
 
+def _implies_atom(test, is_atom):
+    """does the boolean expression imply an atom satisfying is_atom?  (every disjunct of its DNF contains one)"""
+    def dnf(e):
+        if isinstance(e, ast.BoolOp) and isinstance(e.op, ast.Or):
+            out = []
+            for v in e.values:
+                out += dnf(v)
+            return out
+        if isinstance(e, ast.BoolOp) and isinstance(e.op, ast.And):
+            acc = [[]]
+            for v in e.values:
+                acc = [a + b for a in acc for b in dnf(v)]
+            return acc
+        return [[e]]
+    return all(any(is_atom(a) for a in conj) for conj in dnf(test))
+
+
 def rule_type_guard(ctx):
     run = ctx.run
     prog = ctx.prog
@@ -256,6 +274,10 @@ def rule_type_guard(ctx):
             for gn in guards:
                 # the guard's test must be positive on the path: use inside its body, or guard is `if not ...: return`
                 inside = any(u is x or u in list(ast.walk(x)) for s in gn.ast.body for x in [s])
+                # the test must IMPLY the string test: in `isinstance(..) and A or B` the B alternative is unguarded
+                if inside and not _implies_atom(gn.ast.test, lambda a_: "isinstance(" in norm(a_) and (
+                        "StringConstant" in norm(a_) or ", str)" in norm(a_))):
+                    inside = False
                 neg_exit = isinstance(gn.ast.test, ast.UnaryOp) and isinstance(gn.ast.test.op, ast.Not) and gn.ast.body \
                     and isinstance(gn.ast.body[-1], (ast.Return, ast.Raise)) and gn in g.dominators()[sn]
                 conj = isinstance(gn.ast.test, ast.BoolOp) and isinstance(gn.ast.test.op, ast.And) and inside
@@ -465,6 +487,42 @@ def rule_same_decider(ctx):
     run.check(ok, R, key(ff.module.relpath, ff.qualname, "yields-exactly-equivalents"), "the search does not yield exactly the members "
               "that compare equal", file=ff.module.relpath, line=ff.node.lineno, function=ff.qualname,
               expected="for p in patterns: if cmp(...) == 0: yield p", found=short(ff.node, 200))
+
+
+def rule_changed_flag(ctx):
+    """Transformers report (ast, changed); SettleTransformer repeats a chain until nothing changed.  Inside a loop over
+    sub-transformers / children the flag ACCUMULATES (`if c: changed = True`, `changed = changed or c`): unpacking straight into
+    it keeps only the last answer, the chain stops one pass early and documented rewrites are no longer recognised."""
+    run = ctx.run
+    prog = ctx.prog
+    R = "C09.changed-accumulates"
+    n = 0
+    for fi in sorted(prog.functions.values(), key=lambda f: f.id):
+        if not fi.module.name.startswith("stix2.equivalence.pattern.transform") or fi.name not in ("transform", "transform_default") \
+                and not fi.name.startswith("transform"):
+            continue
+        rets = [r for r in returns_of(fi) if isinstance(r.value, ast.Tuple) and len(r.value.elts) == 2 and isinstance(r.value.elts[1], ast.Name)]
+        if not rets:
+            continue
+        flag = rets[0].value.elts[1].id
+        for lp in [x for x in body_walk(fi.node) if isinstance(x, (ast.For, ast.While))]:
+            for a in [x for s_ in lp.body for x in walk_no_nested(s_) if isinstance(x, ast.Assign)]:
+                tg = a.targets[0]
+                hits = [t_ for t_ in ([tg] if isinstance(tg, ast.Name) else (tg.elts if isinstance(tg, (ast.Tuple, ast.List)) else []))
+                        if isinstance(t_, ast.Name) and t_.id == flag]
+                if not hits:
+                    continue
+                n += 1
+                keeps = isinstance(tg, ast.Name) and ((isinstance(a.value, ast.Constant) and a.value.value is True) or (
+                    isinstance(a.value, ast.BoolOp) and isinstance(a.value.op, ast.Or) and any(
+                        isinstance(v_, ast.Name) and v_.id == flag for v_ in a.value.values)))
+                run.check(keeps, R, key(fi.module.relpath, fi.qualname, "flag-in-loop:%s" % short(a, 50)),
+                          "the `changed` flag is overwritten inside the loop: only the last sub-transformer's answer survives, "
+                          "so the settle loop stops although an earlier step changed the AST -- patterns that need another pass "
+                          "are not recognised as equivalent", file=fi.module.relpath, line=a.lineno, function=fi.qualname,
+                          expected="%s = %s or <this change> / if <this change>: %s = True" % (flag, flag, flag), found=short(a))
+    if n < 3:
+        raise AnalysisError("transformers: fewer than 3 flag updates inside loops found (%d)" % n)
 
 
 def rule_copy_complete(ctx):
